@@ -17,6 +17,7 @@ def check(ctx):
                   'the wrap is half-open [0,1) (np.mod alone is closed: np.mod(-1e-17, 1) == 1.0)')
     ctx.doc('R2', 'Trajectory.displacements yields minimum-image steps')
     ctx.doc('R3', 'raw .coords of a trajectory is read only by the mode-normalising accessors or on a fresh position-mode object')
+    ctx.doc('R6', 'no package code writes in place into the coordinate storage of a trajectory (views returned by the accessors)')
     ctx.doc('R4', 'cumulative_displacements = running sum over frames of the minimum-image steps; '
                   'distances_from_base_position = metric length of those; no Euclidean operation on fractional values')
     ctx.doc('R5', 'trajectory_to_volume bins half-open wrapped coordinates')
@@ -87,6 +88,21 @@ def check_raw_reads(ctx):
                    'raw .coords read outside the accessors: its meaning depends on the current storage mode '
                    '(positions or displacements), so the result depends on which query ran before')
     ctx.ob('R3', 'gemdat', f'{n} raw coords reads outside accessors', True, 'enumerated over the whole package')
+    # in-place writes into the coordinate storage change what positions / displacements report afterwards
+    seen = set()
+    nw = 0
+    for it in ctx.package_scan():
+        for e in it.events:
+            if e['tag'] != 'store' or e['where'] is None or e['kind'] == 'attr' or e['base'] is None:
+                continue
+            st_ = e['base'].store or ''
+            if st_ in ('attr:Trajectory.coords', 'attr:Trajectory.base_positions') and id(e['node']) not in seen:
+                seen.add(id(e['node']))
+                nw += 1
+                ctx.ob('R6', e['where'], e['node'], False,
+                       f'in-place write into {st_[5:]} (through a view returned by positions / displacements): the trajectory itself is '
+                       f'modified, so positions reported afterwards no longer equal the input coordinates')
+    ctx.ob('R6', 'gemdat', 'in-place writes into trajectory coordinate storage', nw == 0, 'none in the package')
 
 
 def check_cumulative(ctx, rule='R4'):
